@@ -208,6 +208,11 @@ func extractSaslPlain(repo, root string) error {
 		return err
 	}
 	b.WriteString(sf)
+	tf, err := tlsFacts(repo)
+	if err != nil {
+		return err
+	}
+	b.WriteString(tf)
 	b.WriteString("end KV.Gen\n")
 	return os.WriteFile(filepath.Join(root, "lean", "KafkaVerif", "Gen", "SaslPlainFmt.lean"), []byte(b.String()), 0o644)
 }
